@@ -71,6 +71,8 @@ type FieldSpec struct {
 	Type string    `json:"type,omitempty"`
 	Req  []string  `json:"req,omitempty"`
 	Args []ArgSpec `json:"args,omitempty"`
+	// ArgDefaults names the arguments that have a default value (as InputDefaults).
+	ArgDefaults []string `json:"arg_defaults,omitempty"`
 	// Deprecated gives the field a DeprecationReason (independent of Req: both may be set).
 	Deprecated bool `json:"deprecated,omitempty"`
 	// Conn, when set, makes this field an apifu.Connection (types <Prefix>Connection / <Prefix>Edge,
@@ -89,6 +91,9 @@ type TypeSpec struct {
 	// DepValues are the enum values that carry a DeprecationReason.
 	DepValues []string  `json:"deprecated_values,omitempty"`
 	Inputs    []ArgSpec `json:"inputs,omitempty"` // input object fields
+	// InputDefaults names the input fields that have a default value (scalar / enum typed, non-list
+	// ones only; the value is a function of the type).
+	InputDefaults []string `json:"input_defaults,omitempty"`
 	// Builtin marks a type that is provided by the library (apifu.PageInfoType); the builder uses
 	// the library's object instead of constructing one.
 	Builtin string `json:"builtin,omitempty"`
@@ -144,6 +149,7 @@ func (s *Spec) clone() *Spec {
 		nt.Values = append([]string(nil), t.Values...)
 		nt.DepValues = append([]string(nil), t.DepValues...)
 		nt.Inputs = append([]ArgSpec(nil), t.Inputs...)
+		nt.InputDefaults = append([]string(nil), t.InputDefaults...)
 		nt.Fields = nil
 		for _, f := range t.Fields {
 			nf := f
@@ -379,7 +385,8 @@ func eraseSpec(s *Spec, F map[string]bool) *Spec {
 			continue
 		}
 		nt := TypeSpec{Kind: t.Kind, Name: t.Name, Req: append([]string(nil), t.Req...), Builtin: t.Builtin,
-			Values: append([]string(nil), t.Values...), DepValues: append([]string(nil), t.DepValues...), Inputs: append([]ArgSpec(nil), t.Inputs...)}
+			Values: append([]string(nil), t.Values...), DepValues: append([]string(nil), t.DepValues...), Inputs: append([]ArgSpec(nil), t.Inputs...),
+			InputDefaults: append([]string(nil), t.InputDefaults...)}
 		for _, f := range t.Fields {
 			if !subset(f.Req, F) {
 				continue
